@@ -300,7 +300,7 @@ def RuleOk (T : Tables) (r : Rule) : Bool :=
 /-- the defects of the pinned emitter: `!=` on two bools selects OP_EQ_INT; comparisons and `%` with an
     ITEM-enum operand are typed by the typechecker but have no clause in expr_<op>_emit -/
 def ruleExcused (r : Rule) : Bool :=
-  (r.op == .neq && r.l == .bool) ||
+  -- (`!=` on two bools was repaired by the `fix:` commit 9db5579 and is no longer excused)
   ((r.l == .enumtype || r.r == some .enumtype) && !(r.op == .eq && r.l == .enumtype && r.r == some .enumtype) &&
     (r.op == .lt || r.op == .gt || r.op == .lte || r.op == .gte || r.op == .eq || r.op == .neq || r.op == .mod))
 
